@@ -21,7 +21,9 @@ def check(ctx):
                           '(input, module, default, fixed); every factory and cast on the data path must derive its '
                           'dtype from the input, every convolution weight must be a registered buffer/parameter '
                           '(so module.double()/.float() converts it), every returned tensor must have the input '
-                          'dtype. Stride independence: the same call with inputs flagged non-contiguous must not '
+                          'dtype. The backward pass of every autograd Function reached by the call is analysed the same way '
+                          '(cotangents carry the output dtype; every returned gradient, buffer and weight must follow '
+                          'it). Stride independence: the same call with inputs flagged non-contiguous must not '
                           'reach a .view() on input-strided data and must give the same operator.'}
     return Result('other', cov, findings, assumptions=ASSUME + [
         'the module has been converted to the dtype of its input (module dtype == input dtype)'])
